@@ -105,7 +105,33 @@ def active_of(d):
         return [str(a) for a in tomli.load(f)["current"]["active"]]
 
 
-def compare_dirs(ref, other, same_path_set):
+ROUNDED = {"lines": 0}
+
+
+def unround_maxop(a, b):
+    """Scope of C06: order values representable at the six decimals of the stored order files.  TurtleMD's are
+    not: after a restart `max OP` of a reloaded path comes from order.txt (6 decimals) instead of the float in
+    memory, so its 5-decimal print in the data file may move by one unit in the last place.  Returns `b` with
+    such tokens replaced by `a`'s (everything else untouched), so that only these differences are forgiven."""
+    la, lb = a.split(b"\n"), b.split(b"\n")
+    if len(la) != len(lb):
+        return b
+    out = []
+    for x, y in zip(la, lb):
+        if x != y and not x.startswith(b"#"):
+            tx, ty = x.split(b"\t"), y.split(b"\t")
+            if len(tx) == len(ty) and len(tx) > 4 and tx[:3] == ty[:3] and tx[4:] == ty[4:]:
+                try:
+                    if abs(float(tx[3]) - float(ty[3])) <= 1.0000001e-5:
+                        ROUNDED["lines"] += 1
+                        y = x
+                except ValueError:
+                    pass
+        out.append(y)
+    return b"\n".join(out)
+
+
+def compare_dirs(ref, other, same_path_set, exact_orderp=True):
     """first difference between two run directories in the files C06 names; None if identical"""
     for name, norm in (("infretis_data.txt", None), ("restart.toml", strip_restarted)):
         pa, pb = os.path.join(ref, name), os.path.join(other, name)
@@ -114,6 +140,8 @@ def compare_dirs(ref, other, same_path_set):
         a, b = rd(pa), rd(pb)
         if norm:
             a, b = norm(a), norm(b)
+        if name == "infretis_data.txt" and not exact_orderp and a != b:
+            b = unround_maxop(a, b)
         if a != b:
             ln, x, y = first_diff(a, b)
             return {"file": name, "line": ln, "ref": x, "other": y}
@@ -213,7 +241,7 @@ def check_w1(ctx, fam, ref, d, kind, chain, res):
             else:
                 sig, what = "C06:restart:job-streams-differ", f"job {i}: {y} vs {x}"
             rep["first_differing_job"] = i
-    diff = compare_dirs(ref, d, same_path_set=not fam["delete_old"])
+    diff = compare_dirs(ref, d, same_path_set=not fam["delete_old"], exact_orderp=(fam["engine"] == "lattice" or kind == "twice"))
     if diff is not None:
         rep["first_difference"] = diff
         if sig is None:
@@ -483,6 +511,7 @@ def run(ctx):
                                       chains=lambda fam: chains_for(ctx, fam["N"]),
                                       every=True)
         ctx.extra["one_worker_runs_identical"] = f"{good}/{total}"
+        ctx.extra["turtle_maxop_last_digit_lines_forgiven"] = ROUNDED["lines"]
         run_multi(ctx, pool, os.path.join(base, "multi"), multi)
         ctx.sample({"families": [fam_tag(f) for f in fams][:12]})
         ctx.sample({"multi": [(fam_tag(f), W, p, list(k)) for f, W, p, k in multi][:8]})
@@ -505,6 +534,10 @@ def run(ctx):
     ctx.assumptions += [
         "scope: allowmaxlength = true in every run (the 'initial path' marker lost at a restart — code TODO — would change "
         "the maximal path length of the first moves); order values dyadic (lattice) or whatever TurtleMD produces (run as is)",
+        "scope (six decimals): TurtleMD order values are not representable at the six decimals of order.txt; after a restart "
+        "the `max OP` column of a reloaded path is printed from the re-read value and may differ by one unit in its 5th "
+        "decimal — forgiven for TurtleMD restarts only (counted in turtle_maxop_last_digit_lines_forgiven), never for the "
+        "dyadic lattice engine nor between two identical runs; everything else stays byte-exact",
         "file names inside traj.txt contain the pid and a per-process counter: compared up to that column",
         "with delete_old the list of paths awaiting deletion (pn_olds) is not persisted, so a restarted run keeps some old "
         "path directories longer: with delete_old only paths stored on both sides are compared (all active ones must be)",
